@@ -182,6 +182,88 @@ theorem c19_extra_object_usable {c : Cfg} (hc : CfgOK c) {s : State} (h : Reacha
   rw [if_pos hlt] at h1 h2
   exact ⟨hinv, h1, by omega, ⟨id, blk, sz, p⟩, hmem, rfl, rfl, rfl⟩
 
+/-- **A throwing factory leaves nothing behind** (`promise_extra_storage::alloc`, repaired): when constructing the
+extra object throws, no frame and no extra object exist afterwards, every bookkeeping of frames is as before — and,
+because `allocThrow` is an ordinary step of the machine, all theorems above (`c19_no_leak`: no block without an owner;
+`c19_mtsafe_sequential`: `_busy` only while a frame lives in the block; `c19_warm_no_alloc`) hold after any number of
+such failed creations. -/
+theorem c19_extra_factory_throws {c : Cfg} (hc : CfgOK c) {s : State} (h : Reachable c s) (hok : s.ok = true) (k sz : Nat)
+    (hok' : (step s (Op.allocThrow k sz)).1.ok = true) :
+    (step s (Op.allocThrow k sz)).1.frames = s.frames ∧ (step s (Op.allocThrow k sz)).1.born = s.born ∧
+    (step s (Op.allocThrow k sz)).1.died = s.died ∧ (step s (Op.allocThrow k sz)).1.nextFrame = s.nextFrame ∧
+    (∀ b, (step s (Op.allocThrow k sz)).1.heap.ids.count b
+        = (step s (Op.allocThrow k sz)).1.ptr.toList.count b + (step s (Op.allocThrow k sz)).1.optr.toList.count b
+          + (privBlocks s.frames).count b) ∧
+    (c.pol = Policy.mtsafe → ((step s (Op.allocThrow k sz)).1.busy = true ↔ ∃ f ∈ s.frames, f.priv = false)) := by
+  have hr : Reachable c (step s (Op.allocThrow k sz)).1 := by
+    obtain ⟨ops, rfl⟩ := h
+    exact ⟨ops ++ [Op.allocThrow k sz], by simp [run, List.foldl_append]⟩
+  have hi := reachable_inv hc hr hok'
+  have hcfg : (step s (Op.allocThrow k sz)).1.cfg.pol = c.pol := by rw [reachable_cfg hr]
+  have hi0 := reachable_inv hc h hok
+  -- the frame list: the frame that was recorded for the attempt is removed again
+  have hfr : (step s (Op.allocThrow k sz)).1.frames = s.frames ∧ (step s (Op.allocThrow k sz)).1.born = s.born ∧
+      (step s (Op.allocThrow k sz)).1.died = s.died ∧ (step s (Op.allocThrow k sz)).1.nextFrame = s.nextFrame := by
+    show (stepAllocThrow s k sz).1.frames = _ ∧ (stepAllocThrow s k sz).1.born = _ ∧ (stepAllocThrow s k sz).1.died = _ ∧
+      (stepAllocThrow s k sz).1.nextFrame = _
+    have hok2 : (stepAllocThrow s k sz).1.ok = true := hok'
+    unfold stepAllocThrow at hok2 ⊢
+    cases hres : (stepAlloc s k sz).2 with
+    | alloc id blk =>
+      simp only [hres] at hok2 ⊢
+      obtain ⟨hid, _, _, _, p, hfr⟩ := alloc_result s k sz id blk hres
+      have hfr' : (stepAlloc s k sz).1.frames = s.frames ++ [⟨id, blk, sz, p⟩] := hfr
+      have hfind : (stepAlloc s k sz).1.frames.find? (fun g => g.id == id) = some ⟨id, blk, sz, p⟩ := by
+        rw [hfr', List.find?_append]
+        have : s.frames.find? (fun g => g.id == id) = none := by
+          apply List.find?_eq_none.mpr
+          intro g hg
+          have := hi0.book.fid_lt g hg
+          simp only [beq_iff_eq]; omega
+        simp [this]
+      have hnot : (⟨id, blk, sz, p⟩ : Frame) ∉ s.frames := by
+        intro hm; have := hi0.book.fid_lt _ hm; simp only [] at this; omega
+      refine ⟨?_, rfl, rfl, rfl⟩
+      show (stepFree (stepAlloc s k sz).1 id).1.frames = s.frames
+      rw [(stepFree_frames hfind).1, hfr', List.erase_append_right _ hnot]
+      simp
+    | free id => exfalso; have := alloc_res_kind s k sz; rw [hres] at this; simp at this
+    | obj a b => exfalso; have := alloc_res_kind s k sz; rw [hres] at this; simp at this
+    | unit => exfalso; have := alloc_res_kind s k sz; rw [hres] at this; simp at this
+    | rejected =>
+      simp only [hres]
+      have := alloc_rejected_same s k sz hres
+      rw [this]; exact ⟨rfl, rfl, rfl, rfl⟩
+    | bad =>
+      simp only [hres] at hok2
+      have := alloc_bad_not_ok s k sz hres
+      rw [this] at hok2; cases hok2
+  refine ⟨hfr.1, hfr.2.1, hfr.2.2.1, hfr.2.2.2, ?_, ?_⟩
+  · intro b; have := hi.mem.noleak b; rw [hfr.1] at this; exact this
+  · intro hp
+    have := hi.mem.busy_iff (by rw [hcfg]; exact hp)
+    rw [hfr.1] at this; exact this
+
+/-- The pinned code violated the property here: the exception left `alloc` with the memory still taken.  With a
+`reusable_storage_mtsafe` inside, `_busy` stays set although no frame exists, so the next — warmed-up — frame goes to
+the heap; with `default_storage` inside the block is leaked.  Replayed on the headers by
+corpus/c19_seq_extra_factory_throws.txt; repaired by the second `fix:` commit. -/
+theorem c19_extra_factory_throws_asis_violation :
+    ((stepAllocThrowAsIs (run (init { pol := Policy.mtsafe, extra := 16 }) [Op.alloc 0 40, Op.free 0]) 0 40).1.busy = true
+      ∧ (stepAllocThrowAsIs (run (init { pol := Policy.mtsafe, extra := 16 }) [Op.alloc 0 40, Op.free 0]) 0 40).1.frames = []
+      ∧ (step (stepAllocThrowAsIs (run (init { pol := Policy.mtsafe, extra := 16 }) [Op.alloc 0 40, Op.free 0]) 0 40).1
+            (Op.alloc 0 40)).1.heap.live = [(0, 64), (1, 64)])
+    ∧ ((stepAllocThrowAsIs (init { pol := Policy.default, extra := 40 }) 0 24).1.heap.live = [(0, 64)]
+      ∧ (stepAllocThrowAsIs (init { pol := Policy.default, extra := 40 }) 0 24).1.frames = []) := by decide
+
+/-- the same history on the repaired step: `_busy` is clear again and the next frame reuses the block -/
+example : (run (init { pol := Policy.mtsafe, extra := 16 }) [Op.alloc 0 40, Op.free 0, Op.allocThrow 0 40]).busy = false
+    ∧ (run (init { pol := Policy.mtsafe, extra := 16 }) [Op.alloc 0 40, Op.free 0, Op.allocThrow 0 40, Op.alloc 0 40]).heap.live
+        = [(0, 64)]
+    ∧ (run (init { pol := Policy.default, extra := 40 }) [Op.allocThrow 0 24]).heap.live = []
+    ∧ (run (init { pol := Policy.default, extra := 40 }) [Op.allocThrow 0 24]).heap.dels = [0]
+    ∧ (run (init { pol := Policy.mtsafe, extra := 16 }) [Op.alloc 0 40, Op.free 0, Op.allocThrow 0 40]).ok = true := by decide
+
 /-- **`static_storage<space>`**: a frame is placed in the object's own buffer exactly when frame + trailer fit
 (`need ≤ space`, the library's `assert`); with the `assert` compiled in a larger request is rejected and nothing
 happens; without it (`NDEBUG`) the frame goes to a fresh heap block of exactly `need` bytes, marked private, which
